@@ -2,6 +2,8 @@ package main
 
 import (
 	"fmt"
+	"github.com/reactivego/ivg"
+	"github.com/reactivego/ivg/encode"
 	"math"
 	"math/rand"
 )
@@ -19,6 +21,7 @@ func init() {
 	decFamilies["meta"] = famMeta
 	decFamilies["adversarial"] = famAdversarial
 	decFamilies["splice"] = famSplice
+	decFamilies["gradients"] = famGradients
 }
 
 var allFlags = decFlags{cuts: false, listing: true, render: true, encoder: true, others: true}
@@ -718,6 +721,60 @@ func famSplice(sh *Shards, n int, stats map[string]int) error {
 		fl.cuts = len(b) < 100
 		nc, acc := traceDecode(sh.Next(), fmt.Sprintf("splice/%d", i), b, fl)
 		count(stats, "splice", nc, acc)
+	}
+	return nil
+}
+
+// ---- graphics with valid gradients of many layouts (written by a real Encoder): the first stop above 0, the last below 1,
+// one to sixty stops, every shape and spread, matrices that put pixels before the first and beyond the last stop, bases
+// that make the stop and matrix registers wrap around -------------------------------------------------------------------
+func famGradients(sh *Shards, n int, stats map[string]int) error {
+	rng := newRand(11)
+	k := 0
+	for _, ns := range []int{2, 3, 5, 17, 58, 60} {
+		for shape := 0; shape < 2; shape++ {
+			for spread := 0; spread < 4; spread++ {
+				for _, lay := range [][2]float32{{0, 1}, {0.25, 0.75}, {0, 0.5}, {0.5, 1}, {0.125, 0.25}} {
+					k++
+					if !thorough() && k%3 != int(seed()%3) {
+						continue
+					}
+					base := []int{10, 0, 1, 3, 5, 58, 63}[k%7]
+					var e encode.Encoder
+					e.Reset(ivg.ViewBox{MinX: -8, MinY: -8, MaxX: 8, MaxY: 8}, ivg.DefaultPalette)
+					e.SetCSel(uint8(base))
+					e.SetNSel(uint8(base))
+					for s := 0; s < ns; s++ {
+						a := 55 + rng.Intn(201)
+						e.SetCReg(0, true, ivg.RGBAColor(colorRGBA{uint8(rng.Intn(a + 1)), uint8(rng.Intn(a + 1)), uint8(rng.Intn(a + 1)), uint8(a)}))
+						e.SetNReg(0, true, lay[0]+(lay[1]-lay[0])*float32(s)/float32(ns-1))
+					}
+					m := [6]float32{0.125, 0.03125, 0.5, -0.03125, 0.125, 0.25}
+					if k%2 == 0 {
+						m = [6]float32{0.5, 0, 0, 0, 0.5, 0} // offsets far beyond 1 inside the rectangle
+					}
+					e.SetNSel(uint8(base))
+					for j, v := range m {
+						e.SetNReg(uint8(6-j), false, v)
+					}
+					e.SetCSel(uint8((base + 63) % 64))
+					e.SetCReg(0, false, ivg.RGBAColor(ivg.EncodeGradient(uint8(base), uint8(base), uint8(shape), uint8(spread), uint8(ns))))
+					e.StartPath(0, -8, -8)
+					e.AbsHLineTo(8)
+					e.AbsVLineTo(8)
+					e.AbsHLineTo(-8)
+					e.ClosePathEndPath()
+					b, err := e.Bytes()
+					if err != nil {
+						return err
+					}
+					fl := allFlags
+					fl.cuts = k%9 == 0
+					nc, acc := traceDecode(sh.Next(), fmt.Sprintf("gradients/%d/%d/%d/%d", ns, shape, spread, k), b, fl)
+					count(stats, "gradients", nc, acc)
+				}
+			}
+		}
 	}
 	return nil
 }
